@@ -106,6 +106,8 @@ Section ClientFacts.
   Variables main other : str.
   Variable user_mts : list str.
   Variable limit : N.
+  Variable skip_gc : bool.
+  Variable index_of : str -> option (list desc).
   Variable srv : Type.
   Variable exch : srv -> request -> srv * response.
 
@@ -113,6 +115,9 @@ Section ClientFacts.
   Hypothesis Hother : valid_repository other = true.
 
   Hypothesis Hloc : loc_ok srv exch.
+  (* the hash function yields well-formed digests (needed where the client uses a digest it
+     computed itself in a later request: deleting an old referrers index) *)
+  Hypothesis HvalidH : forall c, valid_digest (H c) = true.
 
   Lemma resolve_ref_valid s rf : resolve_ref main s = Some rf -> valid_ref rf = true.
   Proof.
@@ -270,9 +275,198 @@ Section ClientFacts.
     destruct (r_status r =? 404); [destruct (str_eqb _ _)|]; intro X; inv_pair X; auto with c13.
   Qed.
 
+  Lemma gen_desc_valid r rf hd d :
+    gen_desc H parse_mt limit r rf hd = Some d -> valid_digest (d_dg d) = true.
+  Proof.
+    unfold gen_desc.
+    destruct (parse_mt (nstr (r_ctype r))) as [mt|]; [|discriminate].
+    destruct (r_clen r) as [n|]; [|discriminate].
+    destruct (nstr (r_dig r)) as [|x sd] eqn:Ed.
+    - destruct (valid_digest rf) eqn:Vr.
+      + destruct hd.
+        * destruct rf as [|y rf]; [discriminate|].
+          rewrite str_eqb_refl. cbn [negb]. intro X; injection X as <-. exact Vr.
+        * destruct rf as [|y rf]; [discriminate|].
+          destruct (limit <? n); [discriminate|].
+          destruct (str_eqb (y :: rf) (H (hashed_body limit r))) eqn:Eq; cbn [negb]; [|discriminate].
+          intro X; injection X as <-. apply HvalidH.
+      + destruct hd; [discriminate|]. destruct (limit <? n); [discriminate|].
+        intro X; injection X as <-. apply HvalidH.
+    - destruct (valid_digest (x :: sd)) eqn:Vs; cbn [negb]; [|discriminate].
+      destruct (valid_digest rf) eqn:Vr.
+      + destruct rf as [|y rf]; [discriminate|].
+        destruct (str_eqb (y :: rf) (x :: sd)) eqn:Eq; cbn [negb]; [|discriminate].
+        intro X; injection X as <-. exact Vs.
+      + intro X; injection X as <-. exact Vs.
+  Qed.
+
+  Lemma man_resolve_desc_valid s rs s' t d :
+    man_resolve H parse_mt main user_mts limit srv exch s rs = (s', t, RDesc d) -> valid_digest (d_dg d) = true.
+  Proof.
+    unfold man_resolve. destruct (resolve_ref main rs) as [rf|]; [|discriminate].
+    destruct (exch s _) as [s1 r]. intro X. injection X as _ _ X.
+    destruct (r_status r =? 200).
+    - destruct (gen_desc H parse_mt limit r rf true) eqn:G; [|discriminate]. injection X as <-.
+      eapply gen_desc_valid; eauto.
+    - destruct (r_status r =? 404); discriminate.
+  Qed.
+
+  Lemma man_fetchref_desc_valid s rs s' t d c :
+    man_fetchref H parse_mt main user_mts limit srv exch s rs = (s', t, RDescBytes d c) ->
+    valid_digest (d_dg d) = true.
+  Proof.
+    unfold man_fetchref. destruct (resolve_ref main rs) as [rf|]; [|discriminate].
+    destruct (exch s _) as [s1 r].
+    destruct (r_status r =? 200).
+    - destruct (r_clen r).
+      + intro X. injection X as _ _ X.
+        destruct (gen_desc H parse_mt limit r rf false) eqn:G; [|discriminate]. injection X as <- _.
+        eapply gen_desc_valid; eauto.
+      + destruct (man_resolve _ _ _ _ _ _ _ s1 rs) as [[s2 t2] res2] eqn:E2.
+        intro X. injection X as _ _ X.
+        destruct res2; try discriminate.
+        * destruct (verify_digest r (d_dg d0)); [|discriminate]. injection X as <- _.
+          eapply man_resolve_desc_valid; eauto.
+        * injection X as <- <-. (* man_resolve never returns RDescBytes *)
+          exfalso. revert E2. unfold man_resolve. destruct (resolve_ref main rs); [|discriminate].
+          destruct (exch s1 _) as [s3 r3]. intro Y. injection Y as _ _ Y.
+          destruct (r_status r3 =? 200); [destruct (gen_desc _ _ _ _ _ _); discriminate|].
+          destruct (r_status r3 =? 404); discriminate.
+    - intro X. injection X as _ _ X. destruct (r_status r =? 404); discriminate.
+  Qed.
+
+  (* ---- the referrers tag schema ---- *)
+  (* the source of decodeJSON reads the body through content.ReadAll (regenerated call sequence) *)
+  Lemma decode_json_verifies_true : decode_json_verifies = true.
+  Proof. vm_compute. reflexivity. Qed.
+
+  Lemma referrersFromIndex_order :
+    referrersFromIndex_calls = [b "r.FetchReference"; b "limitSize"; b "decodeJSON"].
+  Proof. vm_compute. reflexivity. Qed.
+
+  Lemma calculateDigest_bounded_read :
+    calculateDigest_calls = [b "limitReader"; b "io.ReadAll"; b "digest.FromBytes"].
+  Proof. vm_compute. reflexivity. Qed.
+
+  Lemma ref_tag_plain dg :
+    valid_digest dg = true ->
+    contains c_slash (ref_tag dg) = false /\ contains c_at (ref_tag dg) = false.
+  Proof.
+    intro V. apply (digest_chars all_algs) in V. unfold contains, ref_tag.
+    induction dg as [|x dg IH]; [split; reflexivity|].
+    cbn [forallb] in V. apply andb_true_iff in V as [A B]. destruct (IH B) as [I1 I2].
+    cbn [map existsb]. rewrite I1, I2, !orb_false_r.
+    unfold digest_char, c_colon, c_slash, c_at in *.
+    destruct (x =? 58) eqn:E; [split; reflexivity|].
+    split; apply N.eqb_neq; intros ->; vm_compute in A; discriminate.
+  Qed.
+
+  Lemma resolve_ref_plain s rf :
+    contains c_slash s = false -> contains c_at s = false -> resolve_ref main s = Some rf -> rf = s.
+  Proof.
+    intros Hs Ha. unfold resolve_ref, repo_parse, Reference.repo_parse, repo_parse_gen.
+    rewrite (parse_no_slash all_algs _ _ Hs).
+    assert (E : split_first c_at s = None) by (now apply split_first_None). rewrite E.
+    destruct (validate_reference all_algs s); [|discriminate]. cbn [r_reference].
+    destruct s; [discriminate|]. intro X. now injection X as <-.
+  Qed.
+
+  Lemma ref_tag_valid_ref dg rf :
+    valid_digest dg = true -> resolve_ref main (ref_tag dg) = Some rf -> valid_ref (ref_tag dg) = true.
+  Proof.
+    intros V E. destruct (ref_tag_plain dg V) as [A B].
+    pose proof (resolve_ref_plain _ _ A B E) as <-. eapply resolve_ref_valid; eauto.
+  Qed.
+
+  Notation rfi := (referrers_from_index H parse_mt main user_mts limit index_of srv exch).
+
+  Lemma rfi_allowed s tag s' t res old :
+    rfi s tag = (s', t, res, old) -> all_allowed t.
+  Proof.
+    unfold referrers_from_index.
+    destruct (man_fetchref _ _ _ _ _ _ _ s tag) as [[s1 t1] res1] eqn:E. apply man_fetchref_allowed in E.
+    destruct res1; try (intro X; inv_pair X; exact E).
+    destruct (limit <? d_sz d); [intro X; inv_pair X; exact E|].
+    destruct (decode_json_verifies && _); [intro X; inv_pair X; exact E|].
+    destruct (index_of c); intro X; inv_pair X; exact E.
+  Qed.
+
+  (* the tag is only written after it was read: a referrers tag that is not a valid reference
+     (sha512: longer than a tag may be) never reaches the registry *)
+  Lemma rfi_ref s tag s' t res old :
+    rfi s tag = (s', t, res, old) ->
+    (res = ROk \/ res = RErr ENotFound) -> exists rf, resolve_ref main tag = Some rf.
+  Proof.
+    unfold referrers_from_index, man_fetchref.
+    destruct (resolve_ref main tag) as [rf|]; [eauto|].
+    intro X. injection X as _ _ <- _. intros [Y|Y]; discriminate.
+  Qed.
+
+  Lemma update_allowed s rst subj ch s' rst' t res :
+    update_referrers_index H parse_mt main user_mts limit skip_gc index_of srv exch s rst subj ch = (s', rst', t, res) ->
+    all_allowed t.
+  Proof.
+    unfold update_referrers_index. destruct (valid_digest (d_dg subj)) eqn:V; cbn [negb]; [|intro X; inv_pair X; auto with c13].
+    destruct (rfi s (ref_tag (d_dg subj))) as [[[s1 t1] res1] old] eqn:E.
+    pose proof (rfi_allowed _ _ _ _ _ _ E) as A1.
+    assert (G : forall oldd oldl,
+              (exists rf, resolve_ref main (ref_tag (d_dg subj)) = Some rf) ->
+              match apply_change oldl (Some ch) with
+              | None => (s1, rst, t1, ROk)
+              | Some upd =>
+                  let '(s2, rst2, t2, res2) :=
+                    if negb (is_nil upd) || skip_gc then
+                      man_put main srv exch s1 rst (mkDesc mt_index (H (gen_index upd)) (len (gen_index upd))) (gen_index upd) true (ref_tag (d_dg subj))
+                    else (s1, rst, [], ROk) in
+                  match res2 with
+                  | ROk =>
+                      match oldd with
+                      | Some od => if skip_gc then (s2, rst2, t1 ++ t2, ROk)
+                                   else let '(s3, t3, res3) := delete_req main srv exch s2 od true in (s3, rst2, t1 ++ t2 ++ t3, res3)
+                      | None => (s2, rst2, t1 ++ t2, ROk)
+                      end
+                  | _ => (s2, rst2, t1 ++ t2, res2)
+                  end
+              end = (s', rst', t, res) ->
+              (forall od, oldd = Some od -> valid_digest (d_dg od) = true) -> all_allowed t).
+    { intros oldd oldl [rf ER] X Hod.
+      pose proof (ref_tag_valid_ref _ _ V ER) as Vt.
+      destruct (apply_change oldl (Some ch)) as [upd|]; [|inv_pair X; exact A1].
+      destruct (negb (is_nil upd) || skip_gc).
+      - destruct (man_put _ _ _ s1 rst _ _ true _) as [[[s2 rst2] t2] res2] eqn:E2.
+        apply man_put_allowed in E2; [|exact Vt|cbn; vm_compute; discriminate].
+        destruct res2; try (inv_pair X; auto with c13).
+        destruct oldd as [od|]; [|inv_pair X; auto with c13].
+        destruct skip_gc; [inv_pair X; auto with c13|].
+        destruct (delete_req _ _ _ s2 od true) as [[s3 t3] res3] eqn:E3.
+        apply delete_req_allowed in E3; [|now apply Hod]. inv_pair X. auto with c13.
+      - destruct oldd as [od|]; [|inv_pair X; rewrite app_nil_r; exact A1].
+        destruct skip_gc; [inv_pair X; rewrite app_nil_r; exact A1|].
+        destruct (delete_req _ _ _ s1 od true) as [[s3 t3] res3] eqn:E3.
+        apply delete_req_allowed in E3; [|now apply Hod]. inv_pair X. cbn [app]. auto with c13. }
+    destruct res1 as [| | | | | |e]; try (intro X; inv_pair X; exact A1).
+    - (* ROk *)
+      destruct old as [[od l]|]; [|intro X; inv_pair X; exact A1].
+      intro X. eapply (G (Some od) l); eauto.
+      + eapply rfi_ref; eauto.
+      + intros od' Y. injection Y as <-.
+        (* the old index descriptor comes from a successful FetchReference *)
+        revert E. unfold referrers_from_index.
+        destruct (man_fetchref _ _ _ _ _ _ _ s _) as [[s0 t0] res0] eqn:E0.
+        destruct res0; try (intro Y; inv_pair Y; discriminate).
+        apply man_fetchref_desc_valid in E0.
+        destruct (limit <? d_sz d); [intro Y; inv_pair Y; discriminate|].
+        destruct (decode_json_verifies && _); [intro Y; inv_pair Y; discriminate|].
+        destruct (index_of c); intro Y; inv_pair Y; try discriminate. exact E0.
+    - destruct e; try (intro X; inv_pair X; exact A1).
+      intro X. eapply (G None []); eauto.
+      + eapply rfi_ref; eauto.
+      + intros od Y; discriminate.
+  Qed.
+
   Lemma man_push_allowed s rst d c rf s' rst' t res :
     valid_ref rf = true -> d_mt d <> [] ->
-    man_push H subject_of main limit srv exch s rst d c rf = (s', rst', t, res) -> all_allowed t.
+    man_push H parse_mt subject_of main user_mts limit skip_gc index_of srv exch s rst d c rf = (s', rst', t, res) -> all_allowed t.
   Proof.
     intros Hr Hm. unfold man_push.
     destruct (indexable (d_mt d) && negb (rs_supported rst)); [|apply man_put_allowed; auto].
@@ -282,12 +476,24 @@ Section ClientFacts.
     apply man_put_allowed in E; auto.
     destruct res1; try (intro X; inv_pair X; exact E).
     destruct (rs_supported rst1); [intro X; inv_pair X; exact E|].
-    destruct (subject_of c) as [[?|]|]; intro X; inv_pair X; exact E.
+    destruct (subject_of c) as [[sj|]|]; try (intro X; inv_pair X; exact E).
+    destruct (update_referrers_index _ _ _ _ _ _ _ _ _ s1 _ sj _) as [[[s2 rst2] t2] res2] eqn:E2.
+    apply update_allowed in E2. intro X; inv_pair X. auto with c13.
+  Qed.
+
+  Lemma tag_schema_allowed s d s' t res :
+    tag_schema_referrers H parse_mt main user_mts limit index_of srv exch s d = (s', t, res) -> all_allowed t.
+  Proof.
+    unfold tag_schema_referrers. destruct (negb (valid_digest (d_dg d))); [intro X; inv_pair X; auto with c13|].
+    destruct (rfi s _) as [[[s1 t1] res1] old] eqn:E. apply rfi_allowed in E.
+    destruct res1 as [| | | | | |e]; try (intro X; inv_pair X; exact E).
+    - destruct old as [[od l]|]; intro X; inv_pair X; exact E.
+    - destruct e; intro X; inv_pair X; exact E.
   Qed.
 
   Lemma man_delete_allowed s rst d s' rst' t res :
     valid_digest (d_dg d) = true ->
-    man_delete H parse_mt subject_of main limit srv exch s rst d = (s', rst', t, res) -> all_allowed t.
+    man_delete H parse_mt subject_of main user_mts limit skip_gc index_of srv exch s rst d = (s', rst', t, res) -> all_allowed t.
   Proof.
     intros Hd. unfold man_delete.
     destruct (indexable_del (d_mt d) && negb (rs_supported rst)).
@@ -300,8 +506,13 @@ Section ClientFacts.
       + destruct (ping_referrers _ _ _ s1 rst) as [[[s2 rst2] t2] ok] eqn:E2.
         apply ping_allowed in E2.
         destruct ok as [[|]|]; try (intro X; inv_pair X; auto with c13).
-        destruct (delete_req _ _ _ s2 d true) as [[s3 t3] res3] eqn:E3.
-        apply delete_req_allowed in E3; auto. intro X; inv_pair X. auto with c13.
+        * destruct (delete_req _ _ _ s2 d true) as [[s3 t3] res3] eqn:E3.
+          apply delete_req_allowed in E3; auto. intro X; inv_pair X. auto with c13.
+        * destruct (update_referrers_index _ _ _ _ _ _ _ _ _ s2 rst2 sj _) as [[[s3 rst3] t3] res3] eqn:E3.
+          apply update_allowed in E3.
+          destruct res3; try (intro X; inv_pair X; auto with c13).
+          destruct (delete_req _ _ _ s3 d true) as [[s4 t4] res4] eqn:E4.
+          apply delete_req_allowed in E4; auto. intro X; inv_pair X. auto 8 with c13.
       + destruct (delete_req _ _ _ s1 d true) as [[s2 t2] res2] eqn:E2.
         apply delete_req_allowed in E2; auto. intro X; inv_pair X. auto with c13.
     - destruct (delete_req _ _ _ s d true) as [[s1 t1] res1] eqn:E1.
@@ -322,25 +533,37 @@ Section ClientFacts.
     apply man_put_allowed in E2; auto. intro X; inv_pair X. auto with c13.
   Qed.
 
-  Lemma predecessors_allowed s rst d s' rst' t res :
-    valid_digest (d_dg d) = true ->
-    predecessors main srv exch s rst d = (s', rst', t, res) -> all_allowed t.
-  Proof.
-    intros Hd. unfold predecessors.
-    assert (A : allowed (req GET main (EReferrers (d_dg d))) = true) by auto using allowed_referrers.
-    destruct rst; try (intro X; inv_pair X; auto with c13);
-      destruct (exch s _) as [s1 r];
-      (destruct (r_status r =? 200);
-       [destruct (str_eqb _ _); intro X; inv_pair X; auto with c13|]);
-      (destruct (r_status r =? 404); [destruct (str_eqb (r_body r) name_unknown)|]); intro X; inv_pair X; auto with c13.
-  Qed.
-
-  Notation run_op' := (run_op H parse_mt subject_of main other user_mts limit srv exch).
-  Notation run_ops' := (run_ops H parse_mt subject_of main other user_mts limit srv exch).
-
   Lemma lift_eq {A} (x : A * trace * result) rst a rst' t res :
     lift A x rst = (a, rst', t, res) -> exists a0, x = (a0, t, res).
   Proof. destruct x as [[a0 t0] r0]. cbn. intro X; inv_pair X. eauto. Qed.
+
+  Lemma predecessors_allowed s rst d s' rst' t res :
+    valid_digest (d_dg d) = true ->
+    predecessors H parse_mt main user_mts limit index_of srv exch s rst d = (s', rst', t, res) -> all_allowed t.
+  Proof.
+    intros Hd. unfold predecessors.
+    assert (A : allowed (req GET main (EReferrers (d_dg d))) = true) by auto using allowed_referrers.
+    assert (T : forall s0 t0 res0 s1 r,
+              (let '(s2, t2, res2) := tag_schema_referrers H parse_mt main user_mts limit index_of srv exch s1 d in
+               (s2, rs_set rst false, (req GET main (EReferrers (d_dg d)), r) :: t2, res2)) = (s0, rst', t0, res0) ->
+              all_allowed t0).
+    { intros s0 t0 res0 s1 r. destruct (tag_schema_referrers _ _ _ _ _ _ _ _ s1 d) as [[s2 t2] res2] eqn:E.
+      apply tag_schema_allowed in E. intro X; inv_pair X. auto with c13. }
+    destruct rst.
+    - destruct (exch s _) as [s1 r].
+      destruct (r_status r =? 200); [destruct (str_eqb _ _); [intro X; inv_pair X; auto with c13|apply T]|].
+      destruct (r_status r =? 404); [destruct (str_eqb (r_body r) name_unknown); [intro X; inv_pair X; auto with c13|apply T]|].
+      intro X; inv_pair X; auto with c13.
+    - destruct (exch s _) as [s1 r].
+      destruct (r_status r =? 200); [destruct (str_eqb _ _); intro X; inv_pair X; auto with c13|].
+      destruct (r_status r =? 404); [destruct (str_eqb (r_body r) name_unknown)|]; intro X; inv_pair X; auto with c13.
+    - intro X. apply lift_eq in X as [a X]. eapply tag_schema_allowed; eauto.
+  Qed.
+
+  Notation run_op' := (run_op H parse_mt subject_of main other user_mts limit skip_gc index_of srv exch).
+  Notation run_ops' := (run_ops H parse_mt subject_of main other user_mts limit skip_gc index_of srv exch).
+
+
 
   Theorem run_op_allowed s rst o s' rst' t res :
     op_ok o -> run_op' s rst o = (s', rst', t, res) -> all_allowed t.
@@ -413,6 +636,7 @@ Section Consistency.
   Variables main other : str.
   Variable user_mts : list str.
   Variable limit : N.
+  Variable index_of : str -> option (list desc).
   Variable srv : Type.
   Variable exch : srv -> request -> srv * response.
 
@@ -606,6 +830,73 @@ Section Consistency.
         rewrite ER in ER'. injection ER' as <-. rewrite Hd in Ev.
         eexists rf, _, r, _. split; [reflexivity|]. split; [exact V|]. split; [reflexivity|]. auto.
     - intro X. injection X as _ _ X. destruct (r_status r =? 404); discriminate.
+  Qed.
+
+  (* the referrers index read through the referrers tag (registries without the Referrers API):
+     it is used only if the body that was received is exactly what the descriptor derived from
+     the same response says -- its length is the Content-Length, its digest the digest header
+     (or the digest computed from it) -- and it decodes; so a digest header or Content-Length
+     contradicting the body makes Referrers/Predecessors and the index update fail *)
+  Lemma man_fetchref_shape s rs s' t res :
+    man_fetchref H parse_mt main user_mts limit srv exch s rs = (s', t, res) ->
+    (exists d c, res = RDescBytes d c) \/ (exists e, res = RErr e).
+  Proof.
+    unfold man_fetchref. destruct (resolve_ref main rs) as [rf|]; [|intro X; injection X as _ _ <-; eauto].
+    destruct (exch s _) as [s1 r].
+    destruct (r_status r =? 200).
+    - destruct (r_clen r).
+      + intro X. injection X as _ _ <-. destruct (gen_desc _ _ _ _ _ _); eauto.
+      + destruct (man_resolve _ _ _ _ _ _ _ s1 rs) as [[s2 t2] res2] eqn:E2.
+        intro X. injection X as _ _ <-.
+        destruct (man_resolve_shape _ _ _ _ _ E2) as [[d0 ->]|[e ->]]; [|eauto].
+        destruct (verify_digest r (d_dg d0)); eauto.
+    - intro X. injection X as _ _ <-. destruct (r_status r =? 404); unfold status_err; eauto.
+  Qed.
+
+  Lemma rfi_shape s tag s' t res old :
+    referrers_from_index H parse_mt main user_mts limit index_of srv exch s tag = (s', t, res, old) ->
+    res = ROk \/ exists e, res = RErr e.
+  Proof.
+    unfold referrers_from_index.
+    destruct (man_fetchref _ _ _ _ _ _ _ s tag) as [[s1 t1] res1] eqn:E.
+    destruct (man_fetchref_shape _ _ _ _ _ E) as [(d0 & c0 & ->)|[e ->]]; [|intro X; injection X as _ _ <- _; eauto].
+    destruct (limit <? d_sz d0); [intro X; injection X as _ _ <- _; eauto|].
+    destruct (decode_json_verifies && _); [intro X; injection X as _ _ <- _; eauto|].
+    destruct (index_of c0); intro X; injection X as _ _ <- _; eauto.
+  Qed.
+
+  Theorem referrers_index_consistent s tag s' t d l :
+    referrers_from_index H parse_mt main user_mts limit index_of srv exch s tag = (s', t, ROk, Some (d, l)) ->
+    exists body,
+      man_fetchref H parse_mt main user_mts limit srv exch s tag = (s', t, RDescBytes d body) /\
+      len body = d_sz d /\ H body = d_dg d /\ d_sz d <= limit /\ index_of body = Some l.
+  Proof.
+    unfold referrers_from_index.
+    destruct (man_fetchref _ _ _ _ _ _ _ s tag) as [[s1 t1] res1] eqn:E.
+    destruct res1 as [| | | |d0 body| |]; try (intro X; discriminate X).
+    destruct (limit <? d_sz d0) eqn:El; [discriminate|].
+    rewrite decode_json_verifies_true. cbn [andb].
+    destruct (negb (len body =? d_sz d0) || negb (str_eqb (H body) (d_dg d0))) eqn:Ev; [discriminate|].
+    destruct (index_of body) as [l0|] eqn:Ei; [|discriminate].
+    intro X. injection X as <- <- <- <-.
+    apply orb_false_iff in Ev as [E1 E2]. apply negb_false_iff in E1, E2.
+    apply N.eqb_eq in E1. apply str_eqb_spec in E2. apply N.ltb_ge in El.
+    exists body. auto.
+  Qed.
+
+  Theorem tag_schema_consistent s d s' t l :
+    tag_schema_referrers H parse_mt main user_mts limit index_of srv exch s d = (s', t, RDescs l) ->
+    l = [] \/
+    exists id body idx,
+      man_fetchref H parse_mt main user_mts limit srv exch s (ref_tag (d_dg d)) = (s', t, RDescBytes id body) /\
+      len body = d_sz id /\ H body = d_dg id /\ index_of body = Some idx /\ l = clean_refs [] idx.
+  Proof.
+    unfold tag_schema_referrers. destruct (valid_digest (d_dg d)); cbn [negb]; [|discriminate].
+    destruct (referrers_from_index _ _ _ _ _ _ _ _ s _) as [[[s1 t1] res1] old] eqn:E.
+    destruct (rfi_shape _ _ _ _ _ _ E) as [->|[e ->]].
+    - destruct old as [[od idx]|]; [|discriminate]. intro X. injection X as <- <- <-.
+      apply referrers_index_consistent in E as (body & E & A & B & _ & C). right. eauto 10.
+    - destruct e; try discriminate. intro X. injection X as _ _ <-. now left.
   Qed.
 
   (* writes: success needs the exact status and a digest header that does not
